@@ -996,9 +996,9 @@ def check(ctx):
 
 
 OPEN = [
-    "the rounding-dependent downsample clauses (strictly increasing ids, gaps in {floor s, ceil s}, |id_k - k s| <= 1) are proved for "
-    "every rounding function with relative error 2^-53 that is exact on integers; that Evo.F64.rne has these two properties is a "
-    "hypothesis here (owned by Lemmas/F64 of C06/C07) - the ids themselves are compared exhaustively with numpy",
+    "the rounding-dependent downsample clauses are proved for every rounding function r with F64Rounding r and instantiated for "
+    "Evo.F64.rne! (rne_is_f64_rounding, from the rne specification lemmas of Lemmas/F64) for up to 2^25 poses; that numpy's binary64 "
+    "arithmetic IS round-to-nearest-even (model rne = hardware) is established by the exhaustive id comparison, not by proof",
     "step lengths and rotation angles enter the model as rationals computed by the harness (exact on the grid stream, float-accurate "
     "with a 2^-40 margin filter on the random stream); scipy's rotation angle is not modelled",
     "numpy.argsort in merge is not stable: order among equal stamps is compared as sets; the model sorts stably",
